@@ -78,6 +78,13 @@ func (hs HarnessEntry) forTier(tier string) (HarnessSpec, bool) {
 			out.TimeoutS = ts.TimeoutS
 		}
 	}
+	if cap := os.Getenv("GOSMT_TIMEOUT_CAP"); cap != "" {
+		var c int
+		fmt.Sscanf(cap, "%d", &c)
+		if c > 0 && out.TimeoutS > c {
+			out.TimeoutS = c
+		}
+	}
 	return out, true
 }
 
